@@ -235,7 +235,11 @@ impl<'p, 'a> Evaluator<'a, 'p> {
                                 }
                             }
                             PendingThunk::Call { func, args } => {
-                                self.execute_call(&func.view(), args);
+                                let args: Vec<_> = args.iter().map(Gc::view).collect();
+                                self.check_thunk_args_and_execute_untraced_call(
+                                    &func.view(),
+                                    &args,
+                                )?;
                             }
                         }
                     }
